@@ -390,7 +390,7 @@ def run(prog, rep):
     # the public visitor: every capture of the stanza's query except the internal full-match one is exposed
     rep.rule("C03.V", "File/Stanza::try_visit_matches expose all named captures of the match: the only filter removes the internal full-match capture, by index, in the index space of the visited query")
     nv = 0
-    for f in [x for x in prog.shape_fns() if x.name == "try_visit_matches" and x.file == "src/execution.rs"]:
+    for f in [x for x in prog.shape_fns() if x.name == "try_visit_matches" and x.file.startswith("src/execution")]:
         preds = []
         for c in prog.all_closures_under(f):
             if c.output is not None and c.ty(c.output).s == "bool":
